@@ -69,6 +69,14 @@ func runVec(v *Vec) (res string) {
 			}
 			mem = mm
 		default:
+			if v.MemSeed%7 < 3 {
+				// the slice ends INSIDE or right after the instruction at PC (1..4 bytes of it are in range), also at the very top of the
+				// address space: length = PC + 1..4 (65535 and 65536 included when PC is FFFB..FFFF)
+				ml = int(cpu.PC) + 1 + int(v.MemSeed/7)%4
+				if ml > 65536 {
+					ml = 65536
+				}
+			}
 			dm := make(z80.DumbMemory, ml)
 			for i := range dm {
 				dm[i] = w.peek(uint16(i))
